@@ -103,10 +103,10 @@ def p_observe(t):
             left = [p for p in c3.paragraphs if keep(p)]
             c3.paragraphs = left
             for strict in (False, True):
-                want = dc.DebianCopyright(paragraphs=list(left)).is_valid(strict=strict)
+                # (no Files paragraph is left from the first step on: the object is not valid, whatever it answered before)
                 got = c3.is_valid(strict=strict)
-                if bool(got) != bool(want):
-                    return 'after paragraphs were taken out, is_valid(strict=%r) answers %r; an object built from the paragraphs left answers %r' % (strict, got, want)
+                if got:
+                    return 'after its Files paragraphs were taken out, the object still answers is_valid(strict=%r) = %r' % (strict, got)
         c2 = dc.DebianCopyright.from_text(t)
         if _snap(c2) != snap:
             return 'a second object built from the same text differs from the first'
